@@ -48,3 +48,36 @@ def run_action(fn, types, values, lexer=None):
     p = P(types, values, lexer)
     fn(p)
     return p[0]
+
+
+class NoSuchProduction(Exception):
+    pass
+
+
+_PRODS = None
+
+
+def load_productions():
+    """call at harness import time (outside tracing)"""
+    global _PRODS
+    from sqv.api import PARSER
+    _PRODS = {}
+    for p in PARSER.yacc.productions:
+        if p.name and p.callable is not None:
+            _PRODS[(p.name, tuple(p.prod))] = p.callable
+    return _PRODS
+
+
+def production_fn(lhs, syms):
+    """the action the REAL parser tables attach to production `lhs : syms` (so a grammar refactoring that moves a
+    production to another p_* function is followed)"""
+    if _PRODS is None:
+        load_productions()
+    fn = _PRODS.get((lhs, tuple(syms)))
+    if fn is None:
+        raise NoSuchProduction("%s : %s" % (lhs, " ".join(syms)))
+    return fn
+
+
+def run_prod(lhs, syms, values, lexer=None):
+    return run_action(production_fn(lhs, syms), list(syms), values, lexer)
